@@ -175,7 +175,7 @@ def gen_tu(rows, path):
     for (t, n) in rows:
         rid = '%s|N=%d' % (tid(t), n)
         out.append('  row_dyn<%s, %dull>("%s");' % (tname(t), n, rid))
-        if n >= 1:
+        if n >= 0:
             out.append('  row_fcv<%s, %dull>("%s");' % (tname(t), n, rid))
         if 1 <= n <= 64:
             out.append('#if __cplusplus >= 201703L\n  row_set<%s, %dull>("%s");\n#endif' % (tname(t), n, rid))
@@ -225,7 +225,7 @@ def compare(std, rows, table):
         for k, what in (('nmc', 'move construction'), ('nma', 'move assignment'), ('nsw', 'swap')):
             if e[k + '_required'] and not d[k]:
                 bad.append((rid, 'c++%s: %s of SmallVector<T,%d> must be noexcept under the documented condition but is not' % (std, what, n)))
-        if n >= 1:
+        if n >= 0:
             f = table.get(('FCV', rid))
             if f is None:
                 bad.append((rid, 'FCV row missing'))
